@@ -41,6 +41,7 @@ def _evidence(prop, tier, seed, agg, n_viol, known_hits, samples, extra=None):
         "operations": ops,
         "probes": dict(sorted(agg.probes.items())),
         "oracle_evaluations": {k: v for k, v in sorted(st.items()) if not k.startswith("op.")},
+        "distinct_states_visited": len(agg.visited),
         "distinct_final_states": len(agg.states),
         "distinct_final_shapes": len(agg.shapes),
         "distinct_run_words": len(agg.words),
@@ -85,15 +86,31 @@ def _sample_runs(prop, seed, tier, n=3):
     return out
 
 
-def determinism_guard(prop, seed, tier, n=3):
+def _guard_worker(args):
     from . import runner
 
-    for idx in range(n):
-        case = runner.make_case(prop, seed, 10_000 + idx, tier)
-        a = runner.run_case(case)
-        b = runner.run_case(runner.make_case(prop, seed, 10_000 + idx, tier))
-        if a.get("digest") != b.get("digest") or a["harness_error"] or b["harness_error"]:
-            print(f"HARNESS-ERROR: determinism guard failed for {prop} idx {10_000 + idx}: {a.get('digest')} vs {b.get('digest')} {a['harness_error'] or b['harness_error'] or ''}")
+    prop, seed, tier, idx = args
+    r = runner.run_case(runner.make_case(prop, seed, idx, tier))
+    return idx, r.get("digest"), r.get("final_hash"), r["harness_error"]
+
+
+def determinism_guard(prop, seed, tier, n=3):
+    """Same seed => same event log: every guard case is executed in two different worker
+    processes and the digests are compared. Runs in forked children so that the parent
+    never starts zarr's I/O thread before the batch pool is forked."""
+    import concurrent.futures as cf
+    import multiprocessing as mp
+
+    idxs = [10_000 + i for i in range(n)]
+    tasks = [(prop, seed, tier, i) for i in idxs] * 2
+    with cf.ProcessPoolExecutor(max_workers=2 * n, mp_context=mp.get_context("fork")) as ex:
+        res = list(ex.map(_guard_worker, tasks))
+    by = {}
+    for idx, dig, fh, err in res:
+        by.setdefault(idx, []).append((dig, fh, err))
+    for idx, lst in by.items():
+        if lst[0] != lst[1] or lst[0][2]:
+            print(f"HARNESS-ERROR: determinism guard failed for {prop} idx {idx}: {lst[0][:2]} vs {lst[1][:2]} {lst[0][2] or lst[1][2] or ''}")
             return False
     return True
 
